@@ -9,6 +9,10 @@ checks = []
 for pid in ALL:
     if pid not in props.PROPS or pid in props.UNCLAIMED:
         continue
+    vf = os.path.join(vlib.COQ, "Props", f"{pid}.v")
+    if not os.path.exists(vf) or not re.search(r"\bTheorem\b", vlib.strip_comments(open(vf).read())):
+        props.UNCLAIMED[pid] = "model, specification and correspondence families run on every check; the property theorems are not merged yet (proof in progress)"
+        continue
     P = props.PROPS[pid]
     checks.append(dict(
         property_id=pid,
